@@ -183,8 +183,25 @@ func violateA(r *evid.Run, c caseA, got, want bool, errs string) {
 	if want {
 		kind = "rejected-permitted"
 	}
-	sig := fmt.Sprintf("C31|policy|%s|%s|%s|refs=%s", kind, band(c.H, c.F, c.R), typeClass(c.Type), c.Refs)
-	if c.Type == ttWithdrawFromSideChain || c.Type == ttReturnSideChainDepositCoin {
+	refs := "none-cross-chain"
+	for _, x := range refSets {
+		if x.Name != c.Refs {
+			continue
+		}
+		nc := 0
+		for _, p := range x.Prefixes {
+			if p == pfxCrossChain {
+				nc++
+			}
+		}
+		if nc > 0 && nc == len(x.Prefixes) {
+			refs = "only-cross-chain"
+		} else if nc > 0 {
+			refs = "mixed"
+		}
+	}
+	sig := fmt.Sprintf("C31|policy|%s|%s|%s|refs=%s", kind, band(c.H, c.F, c.R), typeClass(c.Type), refs)
+	if (c.Type == ttWithdrawFromSideChain || c.Type == ttReturnSideChainDepositCoin) && band(c.H, c.F, c.R) == "restricted" {
 		sig += fmt.Sprintf("|pv=%d", c.PV)
 	}
 	r.Violate(sig, fmt.Sprintf("policy check verdict differs from the statement's table (got accept=%v, want %v, err=%q)", got, want, errs),
@@ -303,26 +320,25 @@ func judgeB(r *evid.Run, x resB) (class string) {
 	if isMainnetName(x.Case.Net) {
 		netClass = "mainnet"
 	}
-	ovClass := "override=" + x.Case.Freeze + "/" + x.Case.Restr
 	if x.GlobalF != x.Freeze || x.GlobalR != x.Restr || !x.SameObj {
 		r.Violate("C31|config|global-parameters-differ|"+netClass, "config.Parameters does not carry the heights SetupConfig returned", art)
 	}
 	if netClass == "mainnet" {
 		if x.Freeze != coordFreeze {
-			r.Violate("C31|config|mainnet-freeze-height|"+ovClass, fmt.Sprintf("mainnet freeze height is %d, not the coordinated constant %d", x.Freeze, coordFreeze), art)
+			r.Violate("C31|config|mainnet-freeze-height", fmt.Sprintf("mainnet freeze height is %d, not the coordinated constant %d", x.Freeze, coordFreeze), art)
 		}
 		if x.Restr != coordRestriction {
-			r.Violate("C31|config|mainnet-restriction-height|"+ovClass, fmt.Sprintf("mainnet restriction height is %d, not the coordinated constant %d", x.Restr, coordRestriction), art)
+			r.Violate("C31|config|mainnet-restriction-height", fmt.Sprintf("mainnet restriction height is %d, not the coordinated constant %d", x.Restr, coordRestriction), art)
 		}
 		if !x.FreezeAtF || !x.TransferAtR {
-			r.Violate("C31|config|mainnet-policy-ineffective|"+ovClass, "with the configured heights the policy check lets a TransferAsset spend a cross-chain UTXO at the coordinated heights", art)
+			r.Violate("C31|config|mainnet-policy-ineffective", "with the configured heights the policy check lets a TransferAsset spend a cross-chain UTXO at the coordinated heights", art)
 		}
 	} else {
 		if x.Freeze != disabled || x.Restr != disabled {
-			r.Violate("C31|config|other-net-not-disabled|"+ovClass, fmt.Sprintf("non-mainnet network %q ends with heights (%d,%d), policy not disabled", x.Case.Net, x.Freeze, x.Restr), art)
+			r.Violate("C31|config|other-net-not-disabled", fmt.Sprintf("non-mainnet network %q ends with heights (%d,%d), policy not disabled", x.Case.Net, x.Freeze, x.Restr), art)
 		}
 		if x.AnyRejectBelow {
-			r.Violate("C31|config|other-net-policy-active|"+ovClass, "policy rejects a cross-chain spend on a network that keeps it disabled", art)
+			r.Violate("C31|config|other-net-policy-active", "policy rejects a cross-chain spend on a network that keeps it disabled", art)
 		}
 	}
 	return fmt.Sprintf("%s|F=%d|R=%d|magic=%d", netClass, x.Freeze, x.Restr, x.Magic)
@@ -353,6 +369,12 @@ func main() {
 	if job, ok := par.Worker(); ok {
 		// worker: one ActiveNet spelling per process; the process
 		// globals are re-initialised before every configuration of the group
+		if job == "ctx" {
+			par.Announce("ctx")
+			par.Emit(runCtx(scr))
+			os.RemoveAll(scr)
+			return
+		}
 		var cs []caseB
 		if err := json.Unmarshal([]byte(job), &cs); err != nil {
 			evid.Fatalf("job: %v", err)
@@ -390,6 +412,12 @@ func main() {
 			x := runB(scr, c)
 			fmt.Printf("case %+v: %+v\n", c, x)
 			judgeB(r, x)
+		case "context":
+			xs := runCtx(scr)
+			for _, x := range xs {
+				fmt.Printf("%+v\n", x)
+			}
+			judgeCtx(r, xs, &evid.Distinct{})
 		}
 		os.RemoveAll(scr)
 		r.Finish(evid.Coverage{})
@@ -460,13 +488,24 @@ func main() {
 		jobs = append(jobs, string(b))
 		i = j
 	}
+	jobs = append(jobs, "ctx")
 	results := par.Procs(jobs, scr, par.Opts{Timeout: 120e9, MemMB: 4096, Env: []string{"GOMAXPROCS=2"}})
 	cfgClasses := &evid.Distinct{}
-	var mainnetCfg, otherCfg, nCfg int
+	var mainnetCfg, otherCfg, nCfg, ctxN, ctxAcc int
 	for i, w := range results {
 		if w.Died || w.Out == nil {
 			os.RemoveAll(scr)
 			evid.Fatalf("config worker %s died (timeout=%v): %s", jobs[i], w.TimedOut, w.Stderr)
+		}
+		if jobs[i] == "ctx" {
+			var cx []ctxRes
+			if err := json.Unmarshal(w.Out, &cx); err != nil {
+				os.RemoveAll(scr)
+				evid.Fatalf("ctx worker output: %v", err)
+			}
+			ctxN = len(cx)
+			ctxAcc = judgeCtx(r, cx, classes)
+			continue
 		}
 		var xs []resB
 		if err := json.Unmarshal(w.Out, &xs); err != nil {
@@ -499,22 +538,25 @@ func main() {
 		"the coordinated mainnet heights are 2256110 (freeze) and 2256724 (restriction); the mainnet name set is {absent, \"\", mainnet, main} case-insensitively, as the code and its pinned test define",
 		"SetupConfig is driven with withScrew=false (command-line binding is not exercised; the two heights carry no command-line tag)")
 	r.Finish(evid.Coverage{
-		"evaluations":         evalsA + int64(len(cb)),
+		"evaluations":         evalsA + int64(len(cb)) + int64(ctxN),
 		"distinct_nontrivial": classes.Len() + cfgClasses.Len(),
 		"rule": "(a) every constructible transaction type x payload versions {0,1,2,3,4,255} x 10 reference sets (prefix mixes) x heights {0,F-1,F,F+1,mid,R-1,R,R+1,MaxUint32} for (F,R) in {mainnet constants, disabled, (100,200)}, verdict of the real policy helper == table written from the statement; " +
 			"(b) SetupConfig on a config file for 12 ActiveNet spellings x 5x5 overrides of both heights (+ InstantBlock branch), in worker subprocesses: mainnet names -> coordinated constants and the policy is effective at them, other names -> disabled and no probe height rejects. " +
+			"(c) complete ContextCheck on a light node for signed, otherwise fully valid TransferAsset transactions spending {cross-chain, standard, both} real unspent outputs x 6 heights x {mainnet heights, disabled}: forbidden => rejected, everything else accepted. " +
 			"non-trivial = distinct (height band, type class, verdict, error) classes over cases that spend a cross-chain UTXO + distinct resulting configurations",
-		"exhaustive":        true,
-		"policy_verdicts":   evalsA,
-		"policy_accepted":   acc,
-		"policy_rejected":   rej,
-		"tx_types":          len(types),
-		"tx_type_values":    strings.Join(typeNames, ","),
-		"policy_classes":    classes.Map(),
-		"configurations":    len(cb),
-		"config_mainnet":    mainnetCfg,
-		"config_other":      otherCfg,
-		"config_classes":    cfgClasses.Map(),
-		"samples":           samples.Out,
+		"exhaustive":       true,
+		"policy_verdicts":  evalsA,
+		"policy_accepted":  acc,
+		"policy_rejected":  rej,
+		"tx_types":         len(types),
+		"tx_type_values":   strings.Join(typeNames, ","),
+		"policy_classes":   classes.Map(),
+		"context_verdicts": ctxN,
+		"context_accepted": ctxAcc,
+		"configurations":   len(cb),
+		"config_mainnet":   mainnetCfg,
+		"config_other":     otherCfg,
+		"config_classes":   cfgClasses.Map(),
+		"samples":          samples.Out,
 	})
 }
